@@ -160,6 +160,90 @@ def run(ctx):
     correspond(ctx, "nend", nend)
     correspond(ctx, "ncount", ncnt)
     correspond(ctx, "ee", ee)
+    cli_cases(ctx, ctx.scale(80, 1500))
+
+
+def cli_cases(ctx, n):
+    """the same definitions through the command line (where the options are wired to the functions): --poly-a, --trim-n, --max-n, --max-ee and
+    --max-aer one at a time on mixed-case reads, with the action/cores settings that change how the pipeline is assembled; every output
+    record is compared with the definition applied to the input read (and the run with the pipeline model)"""
+    import pipe
+    rng = ctx.rng
+    cases = []
+    for _ in range(n):
+        opt = rng.choice(["--poly-a", "--trim-n", "--max-n", "--max-n", "--max-ee", "--max-aer"])
+        val = {"--poly-a": None, "--trim-n": None, "--max-n": rng.choice(["0", "1", "2", "3", "0.1", "0.25", "0.5"]),
+               "--max-ee": rng.choice(["0", "0.5", "1", "2.5"]), "--max-aer": rng.choice(["0.001", "0.01", "0.05", "0.2"])}[opt]    # (0 and 1 are refused: the rate must lie strictly between)
+        argv = ["--no-index"] if rng.random() < 0.5 else []
+        if rng.random() < 0.4:
+            argv += ["--action", rng.choice(["none", "lowercase", "mask", "trim"])]
+        argv += [opt] + ([val] if val is not None else [])
+        argv += ["-o", "{dir}/o1.fastq"]
+        reads = []
+        for i in range(8):
+            L = rng.randint(0, 24)
+            alpha = rng.choice(["ACGTNn", "ACGTacgtNn", "AaNn", "ACGT", "AAAAC", "TTTTG"])
+            s_ = "".join(rng.choice(alpha) for _ in range(L))
+            if opt == "--poly-a" and rng.random() < 0.7:
+                s_ = rng.choice(["", "TTTTTTt", "TTTCTTTT"]) + s_ + rng.choice(["AAAAAA", "AAAaAAAA", "AAACAAAAA", "AAA", ""])
+            q_ = "".join(chr(33 + rng.choice([0, 2, 10, 13, 20, 30, 40])) for _ in s_)
+            reads.append((f"r{i}", s_, q_))
+        c = dict(argv=argv, paired=False, reads1=reads, reads2=None, with_qual=True, interleaved_in=False, c14=(opt, val))
+        if rng.random() < 0.2:
+            c["cores"] = 2
+            c["buffer_size"] = 400
+        cases.append(c)
+    for case, res, real, model in pipe.run_cases(ctx, cases):
+        ctx.count("cli")
+        if "error" in real:
+            ctx.failures.append(Failure("C14/cli-error", "a well-formed run with one of the options fails", dict(argv=case["argv"], reads1=case["reads1"]),
+                                        real.get("error"), None))
+            continue
+        opt, val = case["c14"]
+        exp = []
+        for n_, s_, q_ in case["reads1"]:
+            if opt == "--poly-a":
+                a, e = spec_polyt(s_), None
+                t_ = s_
+                e = spec_polya(t_)
+                # PolyATrimmer: poly-A tail at the 3' end only (poly-T heads are the R2/revcomp variant)
+                exp.append((n_, s_[:e], q_[:e]))
+            elif opt == "--trim-n":
+                t_ = spec_trimn(s_)
+                a = len(s_) - len(s_.lstrip("N"))
+                exp.append((n_, t_, q_[a:a + len(t_)]))
+            elif opt == "--max-n":
+                cnt = s_.count("N") + s_.count("n")
+                v = float(val)
+                drop = (len(s_) > 0 and cnt / len(s_) > v) if v < 1 else cnt > v
+                if not drop:
+                    exp.append((n_, s_, q_))
+            else:
+                eerr = sum(10 ** (-(ord(c) - 33) / 10) for c in q_)
+                v = float(val)
+                drop = eerr > v if opt == "--max-ee" else (len(s_) > 0 and eerr / len(s_) > v)
+                if abs((eerr if opt == "--max-ee" else (eerr / len(s_) if s_ else 0)) - v) < 1e-9:
+                    exp.append(None)      # on the boundary up to rounding: not judged
+                    continue
+                if not drop:
+                    exp.append((n_, s_, q_))
+        got = {r[0]: tuple(r) for r in real["files"].get("o1.fastq", [])}
+        bad = []
+        names_expected = set()
+        for e in exp:
+            if e is None:
+                continue
+            names_expected.add(e[0])
+            if got.get(e[0]) != e:
+                bad.append((e, got.get(e[0])))
+        undecided = len([e for e in exp if e is None])
+        extra = [k for k in got if k not in names_expected]
+        if bad or (extra and not undecided):
+            ctx.failures.append(Failure("C14/cli-deviates-from-definition", f"{opt} through the command line deviates from the definition applied to the input reads",
+                                        dict(argv=case["argv"], reads1=case["reads1"], cores=case.get("cores")),
+                                        [b[1] for b in bad][:3] or extra[:3], [b[0] for b in bad][:3]))
+        if any(("n" in s_) for _, s_, _ in case["reads1"]) and opt == "--max-n":
+            ctx.count("cli:max-n-with-lowercase-n")
 
 
 def extended_search(ctx):
